@@ -203,9 +203,17 @@ RepriceWith(out, newRate, rec) ==
     /\ UNCHANGED <<quai, qi, height>>
     /\ Log(rec, <<"repriced", [c \in DOMAIN out |-> <<out[c].kind, out[c].val>>]>>)
 
-Robust(out) == \A c \in DOMAIN out :
-                  LET d == out[c].first - out[c].slipmin
-                  IN  (IF d < 0 THEN -d ELSE d) * 50 > conv[c].amt       \* decision margin above 2% of the amount
+\* The prediction of a batch is handed to the real node only when it does not depend on what the harness cannot control:
+\* the decision margin is above 2% of the amount, and conversions with the same slip tolerance (which the node keeps in BLOCK
+\* order, an order the harness does not choose) are interchangeable: same direction, same amount and same outcome kind.
+Robust(out) == /\ \A c \in DOMAIN out :
+                     LET d == out[c].first - out[c].slipmin
+                     IN  (IF d < 0 THEN -d ELSE d) * 50 > conv[c].amt
+               /\ \A c, d \in DOMAIN out :
+                     (c # d /\ SlipOf(c) = SlipOf(d)) =>
+                        /\ out[c].kind = out[d].kind
+                        /\ conv[c].amt = conv[d].amt
+                        /\ conv[c].dir = conv[d].dir
 
 PrimeReprice(kq, inc, newRate) ==
     /\ Pending # {}
